@@ -139,6 +139,16 @@ func c13Variants(rng *gen.Rng, i int) ([]c13Variant, [][]byte) {
 			add("inline-subroutine-lazily-skipped-then-called", w, nil, cmdFind(wrapPS(c, gen.Class{Kind: "any"}, gen.SubCall{Name: "sx"})...))
 		}
 	}
+	if subDup {
+		// first mentioned inside a loop that runs zero times (no code is emitted for it), then used
+		zl := []gen.Loop{{Min: 0, Max: 0, Form: "exactly"}, {Min: 0, Max: 0, Form: "atmost"}, {Min: 0, Max: 0, Form: "between"}}[(i/3)%3]
+		a := zl
+		a.Body = grp
+		w := add("in-place-inside-zero-count-loop-then-used", -1, nil, cmdFind(wrapPS(a, gen.Class{Kind: "any"}, grp)...))
+		b := zl
+		b.Body = gen.Seq{Items: []gen.Node{gen.GlobalRef{Name: "gx"}}}
+		add("global-pattern-inside-zero-count-loop-then-used", w, []gen.Global{g}, cmdFind(wrapPS(b, gen.Class{Kind: "any"}, gen.GlobalRef{Name: "gx"})...))
+	}
 	// inside a loop and inside an alternation
 	lp := gen.Loop{Min: 0, Max: -1, Form: "atleast"}
 	if rng.Bool() {
@@ -197,7 +207,7 @@ func C13(r *drv.Run) {
 	if !quick(r) {
 		nbody, nhist = 20000, 2500
 	}
-	r.Rule = "(1) capture-free bodies B (with or, in, not in, loops, nested and recursive subroutines) in contexts prefix/suffix, inside a loop, inside an alternation: B in place == {B}=s (+0..2 calls) == set g to pattern B referenced 1..3 times, also referenced before AND inside a counted loop (exactly 2 / at least 2 / between 3 and 4), all also judged by the reference matcher; (2) a three-command source sharing one definition == concatenation of its commands compiled alone; a source that defines the name AGAIN with another body between its commands == concatenation of each command compiled alone with the definition in force where it stands; (3) recorded sequential histories of Compile/Run calls in random order over a pool of sources (including sources whose compilation fails in the parser, the regex sub-parser, the generator and the type checker) and texts, checked offline against the pure-function model: each call's result digest equals the digest the same call produced alone in a fresh worker process; (4) canonical bytecode digest (loop ids normalised) unchanged by runs and equal across recompilations. Non-trivial = variant pair with >= 1 match compared / history call whose isolated result has >= 1 match; distinct by (variant source, text) and (history, call index)."
+	r.Rule = "(1) capture-free bodies B (with or, in, not in, loops, nested and recursive subroutines) in contexts prefix/suffix, inside a loop, inside an alternation: B in place == {B}=s (+0..2 calls) == set g to pattern B referenced 1..3 times, also referenced before AND inside a counted loop (exactly 2 / at least 2 / between 3 and 4), first mentioned inside a zero-count loop and then used, all also judged by the reference matcher; (2) a three-command source sharing one definition == concatenation of its commands compiled alone; a source that defines the name AGAIN with another body between its commands == concatenation of each command compiled alone with the definition in force where it stands; (3) recorded sequential histories of Compile/Run calls in random order over a pool of sources (including sources whose compilation fails in the parser, the regex sub-parser, the generator and the type checker) and texts, checked offline against the pure-function model: each call's result digest equals the digest the same call produced alone in a fresh worker process; (4) canonical bytecode digest (loop ids normalised) unchanged by runs and equal across recompilations. Non-trivial = variant pair with >= 1 match compared / history call whose isolated result has >= 1 match; distinct by (variant source, text) and (history, call index)."
 	r.Assumptions = []string{
 		"bodies are capture-free, as the property says",
 		"a body that itself declares subroutines is not duplicated textually (two declarations of one name are rejected by design)",
